@@ -54,7 +54,8 @@ func vhTimerKindOf(s tsi.Step) int {
 // check runs the selected oracle groups over the new part of the history.
 func (e *vhSM) check(groups int) {
 	c := &e.cursor
-	live := e.alive && !e.rlc.IsReplaying() && !e.catchupLoop
+	// live: the state machine is voting in a round (not replaying a committed header)
+	live := e.alive && !e.rlc.IsReplaying() && !e.replayingCH()
 
 	if groups&chkC08 != 0 {
 		for _, en := range e.entrances[c.entr:] {
